@@ -473,6 +473,24 @@ pub fn primes_1_mod(factor: u64, bits: usize, count: usize) -> Vec<u64> {
     v
 }
 
+/// The `count` smallest primes of exactly `bits` bits (>= 2^(bits-1)) congruent to 1 modulo `factor`.
+pub fn primes_1_mod_low(factor: u64, bits: usize, count: usize) -> Vec<u64> {
+    let mut v = vec![];
+    let low = 1u64 << (bits - 1);
+    let top = if bits >= 64 { u64::MAX } else { (1u64 << bits) - 1 };
+    let mut x = low / factor * factor + 1;
+    while x < low {
+        x += factor;
+    }
+    while v.len() < count && x <= top {
+        if is_prime_u64(x) {
+            v.push(x);
+        }
+        x += factor;
+    }
+    v
+}
+
 pub fn selftest() -> Result<u64, String> {
     // exhaustive over a boundary alphabet of u128 pairs
     let al: Vec<u128> = {
